@@ -27,10 +27,13 @@ def ncomp (o : Obj K) : ℕ := o.cps.shape.getLastD 0
 def dimension (o : Obj K) : ℕ := o.ncomp - (if o.rational then 1 else 0)
 def basis (o : Obj K) (d : ℕ) : Basis K := o.bases.getD d default
 
-/-- `_validate_domain`: snap every parameter, then range test for non-periodic directions. -/
+/-- `_validate_domain`: snap every parameter, then range test for non-periodic directions.
+    For a non-periodic direction the test is `min(p) < b.start() or b.end() < max(p)`; `min()` of an
+    EMPTY parameter list raises `ValueError` as well (periodic directions accept the empty list). -/
 def validateDomain (o : Obj K) (tol : K) (params : List (List K)) : PyM (List (List K)) :=
   let snapped := (List.zip o.bases.toList params).map (fun (b, ps) => (b, ps.map (snap b tol)))
-  if snapped.any (fun (b, ps) => b.periodic < 0 ∧ ps.any (fun t => t < b.start ∨ b.stop < t)) then .error .value
+  if snapped.any (fun (b, ps) => b.periodic < 0 ∧
+      (ps.isEmpty ∨ ps.any (fun t => t < b.start ∨ b.stop < t))) then .error .value
   else .ok (snapped.map (·.2))
 
 /-- Basis matrices `b.evaluate(p, d, from_right)` for a list of points (rows). -/
